@@ -18,6 +18,12 @@ def run(tier, prop="C15", clauses=CLAUSES, extra=None, limit=None, depth=None):
         dead = tlc.dead_actions(r, ["Start", "Acquire", "Release", "End", "Watchdog"])
         if dead:
             raise base.MachineryError("vacuity: actions never taken: %s" % dead)
+    from . import apalache
+    ap = {"base": True, "step": True, "consequence": True, "skipped": "run under C15"} if prop != "C15" else apalache.inductive("MC_CoordApa", "ConstInit", "Init", "IndInit", "IndInv", next_="Core", consequence="Consequence")
+    R.cov["apalache_inductive_invariant"] = dict(ap, query="recorded graph = {<<x, owner[r], r>> : x active, r in blockedOn[x]} (=> Same / Exact, EndedOwnNothing); 4 operations x 4 resources, "
+                                                           "every preemptable and high-priority set, hold limit 1..3")
+    if not (ap["base"] and ap["step"] and ap.get("consequence")):
+        raise base.MachineryError("CoordCore.tla: IndInv is not inductive or does not imply the clauses (Apalache): %s" % ap)
     cs = coord.configs(tier)[:limit] if limit else coord.configs(tier)
     depth = depth or (8 if quick else 10)
     with cf.ProcessPoolExecutor(max_workers=8) as ex:
